@@ -133,7 +133,7 @@ def _rebuild(world, history):
         n += 1
     if not stack or stack[0][0] != history[0]:
         sim = world.starts[history[0]]
-        stack[:] = [(history[0], sim, world.hv0())]
+        stack[:] = [(history[0], sim, world.hv0_for(history[0]))]
         n = 1
     del stack[n:]
     _, sim, hv = stack[-1]
@@ -294,7 +294,7 @@ def explore(
     frontier: List[Tuple[tuple, int, bytes]] = []
     for label in sorted(world.starts):
         sim = world.starts[label]
-        hv = world.hv0()
+        hv = world.hv0_for(label)
         for m in monitors.initial:
             for v in m(world, sim):
                 v.history = [label]
